@@ -197,7 +197,8 @@ orc_x86_emit_modrm_memoffset (OrcCompiler *compiler, int offset, int src, int de
 void orc_x86_emit_modrm_memindex (OrcCompiler *compiler, int reg1, int offset,
     int reg2, int regindex, int shift)
 {
-  if (offset == 0) {
+  /* mod 00 with base rbp/r13 means "no base, disp32": those need a disp8 */
+  if (offset == 0 && reg2 != X86_EBP && reg2 != X86_R13) {
     *compiler->codeptr++ = X86_MODRM(0, 4, reg1);
     *compiler->codeptr++ = X86_SIB(shift, regindex, reg2);
   } else if (offset >= -128 && offset < 128) {
@@ -217,7 +218,8 @@ void orc_x86_emit_modrm_memindex (OrcCompiler *compiler, int reg1, int offset,
 void orc_x86_emit_modrm_memindex2 (OrcCompiler *compiler, int offset,
     int src, int src_index, int shift, int dest)
 {
-  if (offset == 0) {
+  /* mod 00 with base rbp/r13 means "no base, disp32": those need a disp8 */
+  if (offset == 0 && src != X86_EBP && src != X86_R13) {
     *compiler->codeptr++ = X86_MODRM(0, 4, dest);
     *compiler->codeptr++ = X86_SIB(shift, src_index, src);
   } else if (offset >= -128 && offset < 128) {
